@@ -1402,10 +1402,13 @@ func labelOp(res *vkit.Result, r *opRec, obs int) {
 
 // judge applies every oracle to one finished operation, in the order in which
 // the operations of its key were accepted, and updates the knowledge.
-// writeThrough: VERIF_C15_NO_WT=1 switches the two sites that rest on the
-// write-through policy off (certainty by observation only), to see what the
-// statement alone still catches.
-var writeThrough = os.Getenv("VERIF_C15_NO_WT") == ""
+// writeThrough: the two sites that rest on the write-through POLICY ("a successful
+// write leaves the key cached") are off by default: the statement only demands
+// that whatever the cache holds equals the store, an implementation that
+// invalidated instead of renewing would satisfy it. Certainty about "cached"
+// then comes from observation only. VERIF_C15_WT=1 switches the stricter
+// reading on (every mutant and seeded change is caught without it).
+var writeThrough = os.Getenv("VERIF_C15_WT") == "1"
 
 type judge struct {
 	res *vkit.Result
